@@ -13,7 +13,7 @@ class C01F(worldprop.WorldProp):
         import os
         import vlib
         if prof != "faults-remember":
-            n = dict(general=(200, 4000), twofactor=(100, 2000), remember=(100, 2000), oauth2=(100, 2000), tokens=(100, 2000))[prof]
+            n = dict(general=(200, 4000), twofactor=(100, 2000), remember=(100, 2000), oauth2=(100, 2000), tokens=(100, 2000), onetime=(100, 2000))[prof]
             return worldprop.generate(binp, prof, n[1] if thorough else n[0], 60 if thorough else 30, vlib.seed(), "C01_" + prof)
         path = os.path.join(vlib.CACHE, "faults_c01.jsonl")
         rc, log = vlib.run_harness(["faults", "-seed", str(vlib.seed()), "-only", "remember", "-out", path], binp=binp, timeout=3000)
@@ -24,6 +24,6 @@ class C01F(worldprop.WorldProp):
 
 
 P = C01F("C01", "p_c01", [("general", 200, 4000), ("twofactor", 100, 2000), ("remember", 100, 2000), ("oauth2", 100, 2000),
-                          ("tokens", 100, 2000), ("faults-remember", 0, 0)],
+                          ("tokens", 100, 2000), ("onetime", 100, 2000), ("faults-remember", 0, 0)],
          {10, 13, 151, 152, 153, 154, 155, 156, 16})   # response, session, and every stored credential field
 run, replay = P.run, P.replay
